@@ -145,6 +145,10 @@ ObjStep(x, cset, k, L) ==
                       ELSE IF t.st \in {"ok", "missing", "notdir"} THEN Bad(x, "error", "sym-over-dir")
                       ELSE Bad(x, "unspecified", "sym-over-dir-unres")
              ELSE Bad(x, "error", "nondir-over-dir")
+         \* the temporary name next to an existing object is taken by a DIRECTORY: cannot be a leftover of a
+         \* merge (it never creates one there); what to do about the name clash is not the property's business
+         ELSE IF HasName(s, q) /\ HasName(s, Append(par.p, LastOf(L) \o "#new"))
+                 /\ ObjAt(s, Append(par.p, LastOf(L) \o "#new")).type = "dir" THEN Bad(x, "unspecified", "temp-name-is-directory")
          ELSE LET s1 == IF HasName(s, q) THEN Unlink(s, q).s ELSE s
               IN Put(x, k, "new", q, PlaceObj(x, cset, k, s1, q))
      ELSE Bad(x, "unspecified", "parent-not-a-directory")
